@@ -34,12 +34,25 @@ class Built(object):
     return Fwd(phase, syms)(self.term)
 
 
+def sigmoid_mode(mode):
+  """setup hook: select the library's internal sigmoid (module state set by
+  set_internal_sigmoid) before the quantizer is built."""
+  def setup(pe, m):
+    if "set_internal_sigmoid" not in m.functions:
+      raise AnalysisError("anchor-missing function %s.set_internal_sigmoid"
+                          % m.name)
+    pe.call(pe.lookup_global("set_internal_sigmoid", m), [mode], {})
+  return setup
+
+
 def construct(repo, cls_name, kwargs, x_shape=(4, 6),
-              image_data_format="channels_last", module=QMOD):
+              image_data_format="channels_last", module=QMOD, setup=None):
   pe = PE(repo, image_data_format=image_data_format, x_shape=x_shape)
   m = repo.module(module)
   if cls_name not in m.classes:
     raise AnalysisError("anchor-missing class %s.%s" % (module, cls_name))
+  if setup is not None:
+    setup(pe, m)
   cls = pe.lookup_global(cls_name, m)
   try:
     obj = pe.call(cls, [], dict(kwargs))
@@ -49,9 +62,10 @@ def construct(repo, cls_name, kwargs, x_shape=(4, 6),
 
 
 def build(repo, cls_name, kwargs, x_shape=(4, 6),
-          image_data_format="channels_last", module=QMOD, x=None):
+          image_data_format="channels_last", module=QMOD, x=None,
+          setup=None):
   pe, obj = construct(repo, cls_name, kwargs, x_shape, image_data_format,
-                      module)
+                      module, setup)
   try:
     out = pe.call(obj, [x if x is not None else pe.x_input()], {})
   except PyRaise as e:
